@@ -150,7 +150,14 @@ type GhostField struct {
 	Pkg  string
 }
 
+type Protected struct {
+	Field     string // T.f
+	Mu        string // T.mu
+	Exclusive bool
+}
+
 type SpecFile struct {
+	Protected   []Protected
 	Immutable   []string // "T.f" fields never written after construction
 	GhostFields []*GhostField
 	Path      string
@@ -583,7 +590,7 @@ func (p *parser) parsePrimary() Expr {
 var clauseKeywords = map[string]bool{
 	"func": true, "interface": true, "requires": true, "ensures": true, "modifies": true,
 	"let": true, "loop": true, "invariant": true, "ghost": true, "axiom": true, "lemma": true,
-	"table": true, "import": true, "flag": true, "assert": true, "external": true, "loopmodifies": true, "when": true, "ghostfield": true, "immutable": true,
+	"table": true, "import": true, "flag": true, "assert": true, "external": true, "loopmodifies": true, "when": true, "ghostfield": true, "immutable": true, "protected": true,
 }
 
 type rawClause struct {
@@ -803,6 +810,23 @@ func readSpecFile(path string, pkgPath string) (*SpecFile, error) {
 					g.Result = rest
 				}
 				sf.Ghosts = append(sf.Ghosts, g)
+				cur, curLoop = nil, nil
+			case "protected":
+				// protected [exclusive] T.f, T.g by T.mu
+				t := strings.TrimSpace(rc.text)
+				excl := false
+				if strings.HasPrefix(t, "exclusive ") {
+					excl = true
+					t = strings.TrimSpace(t[len("exclusive "):])
+				}
+				i := strings.LastIndex(t, " by ")
+				if i < 0 {
+					panic(fmt.Errorf("%s:%d: protected [exclusive] T.f, ... by T.mu", path, rc.line))
+				}
+				muf := strings.TrimSpace(t[i+4:])
+				for _, f := range splitTop(t[:i]) {
+					sf.Protected = append(sf.Protected, Protected{Field: strings.TrimSpace(f), Mu: muf, Exclusive: excl})
+				}
 				cur, curLoop = nil, nil
 			case "immutable":
 				for _, f := range splitTop(rc.text) {
